@@ -137,3 +137,9 @@ def run(ctx):
     from .common_url import normpath_table
     normpath_table(ctx, "R7", 5 if ctx.tier == "thorough" else 4)
     T.rule_lrutrie_model(ctx, "R8", 3 if ctx.tier == "thorough" else 2)
+    # two urls mapped to the same string must be the same key: the key is the stems of the unsplit=False
+    # result, the string its unsplit; they determine one another only if no component carries a raw
+    # delimiter of its own position after unescaping (the shared byte tables of ural.quote)
+    from . import common_quote as Q
+    m, binds, params, sets = Q.model(ctx)
+    Q.rule_decode_set(ctx, "R9", m, params, sets)
